@@ -583,7 +583,8 @@ where
             };
 
             let U = current_svd.u.as_ref()?; // will return None if this was not calculated
-            let U_t = U.transpose();
+            // the adjoint, so that U U^H is the orthogonal projector also for complex scalars
+            let U_t = U.adjoint();
 
             //let Sigma_inverse : DMatrix<Model::ScalarType::RealField> = DMatrix::from_diagonal(&self.current_svd.singular_values.map(|val|val.powi(-1)));
             //let V_t = self.current_svd.v_t.as_ref().expect("Did not calculate U of SVD. This should not happen and indicates a logic error in the library.");
@@ -729,7 +730,8 @@ where
             };
 
             let U = current_svd.u.as_ref()?; // will return None if this was not calculated
-            let U_t = U.transpose();
+            // the adjoint, so that U U^H is the orthogonal projector also for complex scalars
+            let U_t = U.adjoint();
 
             //let Sigma_inverse : DMatrix<Model::ScalarType::RealField> = DMatrix::from_diagonal(&self.current_svd.singular_values.map(|val|val.powi(-1)));
             //let V_t = self.current_svd.v_t.as_ref().expect("Did not calculate U of SVD. This should not happen and indicates a logic error in the library.");
